@@ -105,7 +105,48 @@ def utf8Decode : List Nat → Option (List Nat)
       | _ => none
     else none
 
-def validUtf8 (bs : List Nat) : Bool := (utf8Decode bs).isSome
+/-- States of the UTF-8 well-formedness automaton (Unicode table 3-7), the
+validation pass of `str::from_utf8`. -/
+inductive U8 where
+  /-- at a character boundary -/
+  | acc
+  /-- 1 / 2 / 3 continuation bytes `80..BF` still to come -/
+  | c1 | c2 | c3
+  /-- after `E0`: `A0..BF`, then one more -/
+  | e0
+  /-- after `ED`: `80..9F`, then one more -/
+  | ed
+  /-- after `F0`: `90..BF`, then two more -/
+  | f0
+  /-- after `F4`: `80..8F`, then two more -/
+  | f4
+  | rej
+  deriving DecidableEq, Repr
+
+def u8step : U8 → Nat → U8
+  | .acc, b =>
+    if b < 0x80 then .acc
+    else if 0xC2 ≤ b ∧ b ≤ 0xDF then .c1
+    else if b = 0xE0 then .e0
+    else if b = 0xED then .ed
+    else if 0xE1 ≤ b ∧ b ≤ 0xEF then .c2
+    else if b = 0xF0 then .f0
+    else if b = 0xF4 then .f4
+    else if 0xF1 ≤ b ∧ b ≤ 0xF3 then .c3
+    else .rej
+  | .c1, b => if isCont b then .acc else .rej
+  | .c2, b => if isCont b then .c1 else .rej
+  | .c3, b => if isCont b then .c2 else .rej
+  | .e0, b => if 0xA0 ≤ b ∧ b ≤ 0xBF then .c1 else .rej
+  | .ed, b => if 0x80 ≤ b ∧ b ≤ 0x9F then .c1 else .rej
+  | .f0, b => if 0x90 ≤ b ∧ b ≤ 0xBF then .c2 else .rej
+  | .f4, b => if 0x80 ≤ b ∧ b ≤ 0x8F then .c2 else .rej
+  | .rej, _ => .rej
+
+def u8run (s : U8) (bs : List Nat) : U8 := bs.foldl u8step s
+
+/-- `str::from_utf8(bytes).is_ok()`. -/
+def validUtf8 (bs : List Nat) : Bool := decide (u8run .acc bs = .acc)
 
 /-- Unicode scalar value. -/
 def isScalar (c : Nat) : Bool := c < 0xD800 || (0xE000 ≤ c && c < 0x110000)
